@@ -31,6 +31,11 @@ def meshes(tier):
                                                     [[[2, 2, 2], [9, 5, 9]]]]},
     ]
     if tier == "thorough":
+        from . import c07
+        for m in c07.base_meshes("thorough"):
+            # boxes at least 4 cells wide so that interior cells exist
+            ms.append({"ndims": 3, "domain": [2 * a for a in m["domain"]],
+                       "levels": [[[[2 * a for a in lo], [2 * a + 1 for a in hi]] for lo, hi in lv] for lv in m["levels"]]})
         ms.append({"ndims": 3, "domain": [6, 4, 4], "levels": [[[[0, 0, 0], [1, 3, 3]], [[2, 0, 0], [5, 3, 3]]],
                                                                [[[2, 0, 0], [7, 7, 3]], [[2, 0, 4], [5, 3, 7]], [[8, 4, 4], [11, 7, 7]]],
                                                                [[[6, 2, 0], [11, 7, 5]]]]})
@@ -40,7 +45,8 @@ def meshes(tier):
 def cases(tier, seed):
     out = []
     for mi, mesh in enumerate(meshes(tier)):
-        for geo in scope.geometries(3):
+        geos = list(scope.geometries(3))
+        for geo in (geos if mi < 4 else [geos[(mi + seed) % 6], geos[(mi + seed + 3) % 6]]):
             d = dict(mesh)
             d.update(geo)
             d.update({"fields": ["temp", "density", "Z"], "payload": "affidx", "seed": seed,
